@@ -3,10 +3,11 @@
 # and writes seeded/RESULTS.tsv. /repo is patched and restored for each one: run nothing else meanwhile.
 cd /verif
 export VERIF_NO_REGRESS=1
-OUT=seeded/RESULTS.tsv
+OUT=${OUT:-seeded/RESULTS.tsv}
+PATTERN=${PATTERN:-seeded/C*-*}
 printf "mutant\tconfirmed\town_check\tkey\tother_checks\n" > $OUT
-declare -A EXTRA=( [C18-a]="C04" [C19-b]="C10" [C14-a]="C09" [C05-b]="C10" [C16-b]="C06" [C20-b]="C10" [C09-b]="C08" [C08-b]="C09" [C11-b]="C18" [C18-b]="C02" )
-for d in seeded/C*-*; do
+declare -A EXTRA=( [C14-c]="C04" [C14-d]="C19" [C06-d]="C09" [C09-c]="C08" [C02-c]="C17" [C17-d]="C02" [C08-c]="C19" [C15-d]="C09" [C10-d]="C09" [C16-d]="C07" [C07-d]="C06" [C03-d]="C01" [C05-c]="C10" [C05-d]="C06" [C19-d]="C04" [C18-a]="C04" [C19-b]="C10" [C14-a]="C09" [C05-b]="C10" [C16-b]="C06" [C20-b]="C10" [C09-b]="C08" [C08-b]="C09" [C11-b]="C18" [C18-b]="C02" )
+for d in $PATTERN; do
   m=$(basename $d); P=${m%-*}; X=${m#*-}
   R=$(./seedeval.sh $P $X $P ${EXTRA[$m]:-} 2>&1)
   conf=$(echo "$R" | grep -o "build=[a-zA-Z]* suite=[a-zA-Z]* demo-with-change=[a-z]* demo-without=[a-z]*" | head -1 | sed 's/demo-with-change=//; s/demo-without=/\//; s/ \//\//')
